@@ -223,6 +223,9 @@ func c17BuildSchema(row C17Row, seed int64, base string) *c17Builder {
 	if row.S("models") == "mixed" {
 		b.feature("handWritten", b.handWritten)
 	}
+	if row.B("handInModel") {
+		b.feature("handInModel", b.handInModel)
+	}
 	if row.B("builtinDir") {
 		b.feature("builtinDirs", b.builtinDirs)
 	}
@@ -709,6 +712,17 @@ func (b *c17Builder) idInitialism() {
 	t.add(&c17Field{Name: "id", Type: "ID!"})
 	t.add(&c17Field{Name: "apiKeyId", Type: "ID"})
 	t.add(&c17Field{Name: "URL", Type: "String"})
+	// DELIBERATE: a non-root object whose name templates.ToGo REWRITES (an initialism in non-upper-case form:
+	// ImageUrl -> ImageURL, UserId -> UserID, ...) and that has a resolver field, so that the name of its
+	// resolver interface, its ResolverRoot accessor, its resolver struct and its stub are all emitted - by
+	// different templates that must agree on the spelling (resolver layouts and stub file: pairwise)
+	t2 := b.newType("object", "ImageUrl", "UserId", "HttpError", "XmlNode", "SqlRow", "ApiToken")
+	t2.add(&c17Field{Name: "id", Type: "ID!"})
+	t2.add(&c17Field{Name: "payload", Type: "String"})
+	t2.add(&c17Field{Name: "sizeKb", Type: "Int"})
+	b.resolverFields[t2.Name] = append(b.resolverFields[t2.Name], "payload")
+	b.resolverFields[t.Name] = append(b.resolverFields[t.Name], "URL")
+	b.query.add(&c17Field{Name: "latest" + t2.Name, Type: t2.Name})
 	b.query.add(&c17Field{Name: c17LcFirst(t.Name), Type: t.Name, Args: []*c17Arg{{Name: "userId", Type: "ID"}, {Name: "URL", Type: "String"}, {Name: "httpApi", Type: "Int"}, {Name: "ip", Type: "String"}, {Name: "Uuid", Type: "ID"}}})
 	if b.enum != "" {
 		e := b.s.byName[b.enum]
@@ -742,6 +756,9 @@ func (b *c17Builder) idUnderscore() {
 	t := b.newType("object", "snake_type", "_Lead", "Trail_", "Mid__Dle", "UPPER_TYPE")
 	t.add(&c17Field{Name: "id", Type: "ID!"})
 	t.add(&c17Field{Name: "_value", Type: "String"})
+	// DELIBERATE: a resolver field on the type whose name ToGo rewrites (underscores removed), see idInitialism
+	t.add(&c17Field{Name: "detail", Type: "String"})
+	b.resolverFields[t.Name] = append(b.resolverFields[t.Name], "detail")
 	b.query.add(&c17Field{Name: "get_" + strings.Trim(t.Name, "_"), Type: t.Name,
 		Args: []*c17Arg{{Name: "_x", Type: "Int"}, {Name: "y_", Type: "Int"}, {Name: "a__b", Type: "String"}, {Name: "snake_arg", Type: "ID"}}})
 	if b.enum != "" {
@@ -822,6 +839,28 @@ func (b *c17Builder) handWritten() {
 		in.add(&c17Field{Name: "age", Type: "Int!"})
 		in.add(&c17Field{Name: "tags", Type: "[String!]"})
 		b.query.add(&c17Field{Name: "matchProfile", Type: "Profile", Args: []*c17Arg{{Name: "like", Type: "ProfileInput!"}}})
+	}
+}
+
+// handInModel adds a type whose Go model is hand-written in the MODEL OUTPUT PACKAGE (next to
+// models_gen.go): found through autobind when the row lists that package under autobind
+// (autobindModel), bound by an explicit models: entry otherwise.
+func (b *c17Builder) handInModel() {
+	if !b.types.take("HandKept") {
+		return
+	}
+	b.needHand["inmodel"] = true
+	t := b.s.addType(&c17Type{Kind: "object", Name: "HandKept"})
+	t.add(&c17Field{Name: "id", Type: "ID!"})
+	t.add(&c17Field{Name: "label", Type: "String"})
+	t.add(&c17Field{Name: "amount", Type: "Int!"})
+	t.add(&c17Field{Name: "total", Type: "Int!"})
+	t.add(&c17Field{Name: "related", Type: b.obj(0).Name}) // no Go field: becomes a resolver
+	b.query.add(&c17Field{Name: "handKept", Type: "HandKept", Args: []*c17Arg{{Name: "id", Type: "ID!"}}})
+	b.query.add(&c17Field{Name: "handKepts", Type: "[HandKept!]!"})
+	if !b.row.B("autobindModel") {
+		dir, _ := c17ModelPkg(b.row)
+		b.models["HandKept"] = b.base + "/" + dir + ".HandKept"
 	}
 }
 
